@@ -171,10 +171,13 @@ def evaluate(m):
         for prop in ALL:
             ctx = Ctx(prop, "mutant", 0)
             try:
-                eng = Engine(tmp)
-                for mm, line, what in eng.g0():
-                    ctx.error(f"G0 {mm}:{line} {what}")
-                importlib.import_module(f"sa.rules.{prop}").run(eng, ctx)
+                from sa.main import analysis_budget
+
+                with analysis_budget(300, f"{prop} on mutant {m['file']}:{m['line']} {m['op']}"):
+                    eng = Engine(tmp)
+                    for mm, line, what in eng.g0():
+                        ctx.error(f"G0 {mm}:{line} {what}")
+                    importlib.import_module(f"sa.rules.{prop}").run(eng, ctx)
             except AnalysisError as err:
                 ctx.error(str(err))
             except Exception as err:  # noqa: BLE001
